@@ -289,8 +289,17 @@ class Folder:
                 # resolve through imports when present; the compat module re-exports struct.Struct
                 callee = _Helper("Struct" if fn.endswith("Struct") else "BYTES_LITERAL")
             elif fn in ("dict", "set", "frozenset", "tuple", "list", "range", "type", "bytes", "len", "str",
-                        "int", "sorted", "min", "max"):
+                        "int", "sorted", "min", "max", "zip", "enumerate", "reversed"):
                 callee = _Helper(fn)
+            elif fn == "map" and len(args) >= 2 and isinstance(args[0], ast.Name) and args[0].id in (
+                    "bytes", "str", "int", "tuple", "list", "len", "frozenset") and not n.keywords:
+                # map(<pure builtin>, seq...): folded element-wise
+                inner = _Helper(args[0].id)
+                seqs = [self._fold(a, mod, env) for a in args[1:]]
+                try:
+                    return [inner(list(t), {}) for t in zip(*[list(s_) for s_ in seqs])]
+                except TypeError:
+                    raise Unfoldable("map over a non-sequence")
         if callee is None:
             raise Unfoldable("call %s" % A.src(n.func))
         vals = [self._fold(a, mod, env) for a in args]
@@ -332,6 +341,12 @@ class _Helper:
                 return list(*a)
             if nm == "sorted":
                 return sorted(*a)
+            if nm == "zip":
+                return [tuple(t) for t in zip(*[list(x) for x in a])]
+            if nm == "enumerate":
+                return [tuple(t) for t in enumerate(list(a[0]), *a[1:])]
+            if nm == "reversed":
+                return list(reversed(list(a[0])))
             if nm == "range":
                 r = range(*a)
                 if len(r) > 100000:
